@@ -285,8 +285,9 @@ def make_converter(ty: IntoConverter, handlers: ConverterHandlers = ConverterHan
             # a named tuple: one slot per field, of the annotated type (if any)
             try:
                 hints = t.get_type_hints(base, include_extras=True)
-            except Exception:
-                hints = {}
+            except Exception as e:
+                # e.g. a forward reference to a class which isn't defined yet. Not taken for `Any`: that converter would stay
+                raise TypeError(f"Unable to resolve the field types of named tuple '{base.__name__}': {e}") from None
             return TupleConverter(base, tuple(hints.get(f, t.Any) for f in base._fields), handlers=handlers)  # type: ignore
         # treat tuple[int, ...] and tuple[()] correctly
         if len(args) > 0 and args[-1] != Ellipsis \
